@@ -73,8 +73,9 @@ def run(ctx, chk):
                     chk.ob('C01.W1', 'record.bound<-held-sample', um.updater_field(f[2]) == um.field_of.get(2), where, 'bound <- %s' % fmt(f[2])[-40:])
                 chk.ob('C01.W1', 'record.drift<-configured', um.updater_field(f[3]) == um.field_of.get(3), where, 'drift <- %s' % fmt(f[3])[-40:])
                 va = f[1]
-                chk.ob('C01.W1', 'record.void_after<-as_of', va[0] == 'agg' and arith.mentions(va, T('field', f[0], 'tv_sec')), where,
-                       'void_after <- %s' % fmt(va)[-80:])
+                # computed from the published as_of, or a cached field kept equal to as_of + 1000 s (invariant: C08.B, imported below)
+                chk.ob('C01.W1', 'record.void_after<-as_of', (va[0] == 'agg' and arith.mentions(va, T('field', f[0], 'tv_sec'))) or
+                       um.updater_field(va) is not None, where, 'void_after <- %s' % fmt(va)[-80:])
                 st = fmt(f[5])
                 kind, st_, from_step = um.published(chk, i, ceb)
                 chk.ob('C01.W1', 'record.status<-fsm', (kind == 'fsm' and from_step) or (kind, st_) == ('const', 'Unknown'), where,
@@ -207,13 +208,14 @@ def run(ctx, chk):
     for b in fb.bodies(common.SHM):
         if b.name == 'new' and (b.impl_self or '').endswith(('ShmReader', 'ShmWriter')):
             side = 'reader' if b.impl_self.endswith('ShmReader') else 'writer'
-            from .startup_model import is_reader_new
-            eng = common.mk_engine(fb, inline_depth=8, no_inline=(is_reader_new if side == 'writer' else None))
+            from .startup_model import is_reader_new, init_reader_open
+            init_reader_open(fb)
+            eng = common.mk_engine(fb, inline_depth=8, loop_unroll=8, no_inline=(is_reader_new if side == 'writer' else None))
             for q in eng.run(b):
                 if q.kind == 'return' and q.value[0] == 'agg' and q.value[2] == 'Ok':
                     for ef in q.effects:
-                        if ef['kind'] == 'call' and ef['callee'].endswith('::add') and psi.is_int_const(ef['args'][1]):
-                            offs[side] = ef['args'][1][1]
+                        if ef['kind'] == 'call' and common.ptr_advance_bytes(fb, ef) is not None:
+                            offs[side] = common.ptr_advance_bytes(fb, ef)
     # the type each side actually moves through its record pointer: the type argument of the raw-pointer
     # read reachable from ShmReader::snapshot and of the raw-pointer write reachable from ShmWriter::write
     ptr_tys = {}
